@@ -282,3 +282,75 @@ def replay_bnafld(w):
     out = _violations(int(w["dim"]), None if w["cond_dim"] is None else int(w["cond_dim"]), int(w["depth"]), int(w["block_dim"]),
                       w["activation"], w["mode"], int(w["seed"]))
     return any(v["law"] == w["law"] and v["rep"] == w.get("rep", v["rep"]) for v in out)
+
+
+# ------------------------------------------------------------------ the GENERATED constructor (Gen/BnafInitGen.lean, driver op `gbnafinit`)
+def _init_acts():
+    """token for the driver -> (constructor argument, kind)"""
+    return {
+        "none": (lambda: None, "default"),
+        "bij:-:N": (lambda: B.LeakyTanh(2.0), "LeakyTanh(2)"),
+        "bij:-:N ": (lambda: B.Tanh(), "Tanh()"),
+        "callable": (lambda: jnp.tanh, "callable"),
+        "bij:2:N": (lambda: B.Affine(jnp.zeros(2), jnp.ones(2)), "invalid shape (2,)"),
+        "bij:-:1": (lambda: B.AdditiveCondition(lambda c_: jnp.sum(c_), (), (1,)), "invalid conditional scalar"),
+        "bij:1:2": (lambda: B.AdditiveCondition(lambda c_: jnp.zeros(1) + jnp.sum(c_), (1,), (2,)), "invalid shape (1,) and conditional"),
+    }
+
+
+def _sh(s):
+    return "N" if s is None else (",".join(str(int(v)) for v in s) or "-")
+
+
+def describe_real(net):
+    layers = []
+    for lin, ljf in net.layers:
+        u = unwrap(lin)
+        blk = ljf(u)
+        w = np.asarray(u.weight)
+        assert (lin.out_features, lin.in_features) == w.shape
+        layers.append(f"{w.shape[0]}x{w.shape[1]}x{np.asarray(u.bias).shape[0]}/" + "x".join(str(int(v)) for v in blk.shape))
+    cl = "N" if net.cond_linear is None else "x".join(str(int(v)) for v in np.asarray(net.cond_linear.weight).shape)
+    if net.cond_linear is not None:
+        assert net.cond_linear.bias is None
+    return (f"OK {len(net.layers)} {_sh(net.shape)} {_sh(net.cond_shape)} {net.depth} {net.block_dim} {';'.join(layers)} {cl} "
+            f"{_sh(net.activation.shape)}:{_sh(net.activation.cond_shape)}")
+
+
+def init_configs(tier, rng):
+    acts = list(_init_acts())
+    full = [(d, cd, dep, bd, a) for d in range(1, 5) for cd in (None, 1, 2) for dep in range(0, 4) for bd in range(1, 4) for a in acts]
+    if tier != "quick":
+        return full
+    keep = [(1, None, 0, 1, "none"), (2, 1, 1, 3, "none"), (3, 2, 2, 2, "callable"), (4, None, 3, 3, "bij:-:N"), (2, 2, 0, 3, "bij:-:N "),
+            (3, None, 1, 2, "bij:2:N"), (2, 1, 2, 1, "bij:-:1"), (4, 2, 3, 2, "bij:1:2"), (1, 2, 3, 3, "callable"), (4, 1, 0, 2, "none"),
+            (2, None, 2, 3, "none"), (3, 1, 3, 1, "bij:-:N"), (1, None, 1, 1, "bij:-:1"), (2, 2, 0, 1, "bij:2:N")]
+    rest = [cf for cf in full if cf not in keep]
+    return keep + rng.sample(rest, 34)
+
+
+def corr_init(c, tier, rng):
+    """the GENERATED `BlockAutoregressiveNetwork.__init__` (driver op `gbnafinit`) against real constructions: layer count, every layer's
+    unwrapped weight / bias shape and the shape its log-Jacobian closure returns (= `(dim, *block_shape)`), declared `shape`,
+    `cond_shape`, `depth`, `block_dim`, the `cond_linear` weight shape, the selected activation's declared shapes — or the ValueError"""
+    acts = _init_acts()
+    cfgs = init_configs(tier, rng)
+    lines = [f"gbnafinit {d} {-1 if cd is None else cd} {dep} {bd} {a.strip()}" for d, cd, dep, bd, a in cfgs]
+    outs = vlib.run_model(lines)
+    for (d, cd, dep, bd, a), line, got in zip(cfgs, lines, outs):
+        mk, kind = acts[a]
+        try:
+            net = B.BlockAutoregressiveNetwork(S.KEY, dim=d, cond_dim=cd, depth=dep, block_dim=bd, activation=mk())
+            want = describe_real(net)
+            # the hand model of the block shapes (what the C09 / C02 theorems assume) against the same object
+            shapes = [(1, 1)] if dep == 0 else [(bd, 1)] + [(bd, bd)] * (dep - 1) + [(1, bd)]
+            if [tuple(int(v) // d for v in np.asarray(unwrap(lin).weight).shape) for lin, _ in net.layers] != shapes:
+                c.mismatch("bnafinit-hand-block-shapes-vs-impl", op=line, want=shapes)
+        except ValueError as ex:
+            want = "RAISE valueError"
+            if "Bijection must be unconditional with shape ()" not in str(ex):
+                want = "RAISE other ValueError: " + str(ex)[:80]
+        c.count("bnafinit:" + kind + (":raise" if want.startswith("RAISE") else ":ok"))
+        c.case(f"bnafinit {kind} dep{min(dep, 2)} cd{cd is not None}", True, sample=dict(op=line, model=got, impl=want))
+        if got != want:
+            c.mismatch("bnafinit-generated-ctor-vs-impl", op=line, model=got, impl=want)
